@@ -163,6 +163,11 @@ def gen_case(rnd, idx):
         bad = rnd.choice(['nosuchdir', 'main.asm' if main == 'main.asm' else 'src/main.asm', 'build/nosuch'])
         opts['incs'] = opts['incs'] + [bad] if rnd.random() < 0.5 else [bad] + opts['incs']
         planted = 'option:invalid-include-dir'
+    if main == 'main.asm' and opts['output'] == 'out.bin' and planted is None and rnd.random() < 0.3:
+        # the program embeds the bytes of an older build of itself: the output file is read before it is written
+        lines.insert(rnd.randrange(0, len(lines) + 1), 'include_bytes out.bin')
+        lines.append('    align 4')
+        c['self_embed'] = True
     link = None
     if rnd.random() < 0.12:
         # the input path is a symbolic link into another directory: the files NEXT TO THE LINK are the adjacent ones
@@ -178,7 +183,7 @@ def gen_case(rnd, idx):
     if planted == 'option:missing-input':
         c['main_arg'] = rnd.choice(['nosuch.asm', 'src/nosuch.asm', ROOT + '/gone.asm'])
     # which output files pre-exist
-    c['pre'] = dict(out=rnd.random() < 0.7, lab=rnd.random() < 0.7, hex=rnd.random() < 0.7)
+    c['pre'] = dict(out=rnd.random() < 0.7 or bool(c.get('self_embed')), lab=rnd.random() < 0.7, hex=rnd.random() < 0.7)
     c['salt'] = rnd.randrange(1 << 30)
     return c
 
